@@ -210,6 +210,15 @@ def directed_chains():
           [["v", ["vec", P("int64"), None]], ["w", ["vec", P("int32"), 3]], ["x", ["opt", ["vec", ["vec", P("uint16"), None], None]]]])
     # a record of fixed-size scalars is copied as raw memory by the C++ back end when it sits in a vector (arrays and maps of a changed record are not accepted evolutions): the
     # records of an older version must still go through the conversion
+    # (fixed-width field types only - float, double, 8-bit integers - and no padding: that is what makes a record 'trivially serializable')
+    fw = [["c", P("float64")], ["a", P("float32")], ["b", P("float32")], ["z", P("float64")]]
+    holder_fw = lambda: [["h", ["ref", "R"], False], ["s", ["vec", ["ref", "R"], None], True], ["v", ["vec", ["ref", "R"], 2], False], ["o", ["opt", ["vec", ["ref", "R"], None]], False],
+                         ["w", ["vec", ["vec", ["ref", "R"], 2], None], False], ["items", ["ref", "R"], True]]
+    chain("directed:trivially-serializable-record-in-vectors", fw, [fw[3], fw[0], fw[1], fw[2]], [fw[0], fw[1], fw[2]],
+          steps_list=[holder_fw(), holder_fw(), holder_fw()])
+    fb = [["r", P("uint8")], ["g", P("uint8")], ["b", P("uint8")], ["x", P("int8")]]
+    chain("directed:trivially-serializable-byte-record-in-vectors", fb, [fb[3], fb[2], fb[1], fb[0]], [fb[0], fb[1], fb[2]],
+          steps_list=[holder_fw(), holder_fw(), holder_fw()])
     ft = [["a", P("int32")], ["c", P("float64")], ["e", P("uint16")]]
     holder = lambda: [["h", ["ref", "R"], False], ["s", ["vec", ["ref", "R"], None], True], ["v", ["vec", ["ref", "R"], 2], False], ["o", ["opt", ["vec", ["ref", "R"], None]], False],
                       ["w", ["vec", ["vec", ["ref", "R"], 2], None], False]]
